@@ -15,12 +15,11 @@ import vlib
 from vlib import log
 
 LEVEL = "model_checking"
-# VERIF_UNSTEER=F29,F31 ./check ...: switch the steering around the named recorded findings off (to test a candidate repair)
-UNSTEER = ["--unsteer", os.environ["VERIF_UNSTEER"]] if os.environ.get("VERIF_UNSTEER") else []
 TERMINATED = 2147483647
 UIDX = 5  # abstract documents of the stripe index (set to the universe of the generated programs)
 
-# stable texts of the findings recorded for this property (see known_findings.json)
+# texts of the defects F29-F33, all repaired in /repo by fix commits: kept so that a regression is reported in the same words
+# (the generators do not steer around them any more; regression_cases() keeps one small case per class in every run)
 KF_BITSET = "BitSetDocSet: advance() after a seek past the last document resumes the iteration instead of staying TERMINATED"
 KF_INTERCOUNT = "Intersection::count_including_deleted (dense path) consumes the set but leaves doc() on a stale document of its first leg (score() there can panic)"
 KF_UNIONDANGER = ("BufferedUnionScorer::seek_danger with a target before its buffered window ignores the buffered documents: the lower "
@@ -351,7 +350,7 @@ def replay_generated(ctx):
     cp = ctx.path("gen_cases.ndjson")
     vlib.write_ndjson(cp, list(groups.values()))
     tp = ctx.path("gen_trace.ndjson")
-    vlib.run_bin("docset_driver", ["cases", "--in", cp, "--out", tp] + UNSTEER, timeout=900, mem_gb=12)
+    vlib.run_bin("docset_driver", ["cases", "--in", cp, "--out", tp], timeout=900, mem_gb=12)
     ev = vlib.read_ndjson(tp)
     # judged in chunks (a thorough trace has ~3,000 scorer lines with sequences of up to 20,000 documents)
     n = 0
@@ -366,7 +365,7 @@ def replay_generated(ctx):
 def random_programs(ctx, seed, docs, queries, progs, maxlen, label, extra=None):
     tp = ctx.path(f"{label}_trace.ndjson")
     vlib.run_bin("docset_driver", ["random", "--seed", seed, "--docs", docs, "--queries", queries, "--progs", progs,
-                                   "--maxlen", maxlen, "--out", tp] + (extra or []) + UNSTEER, timeout=900, mem_gb=12)
+                                   "--maxlen", maxlen, "--out", tp] + (extra or []), timeout=900, mem_gb=12)
     ev = vlib.read_ndjson(tp)
     n = validate(ctx, ev, label)
     log(f"[T] {label}: {queries} random query trees x segments x {progs} random programs, {n} programs accepted")
@@ -376,8 +375,9 @@ def random_programs(ctx, seed, docs, queries, progs, maxlen, label, extra=None):
 RICH = {"seed": 7, "docs": 6000, "bigseg": True}
 
 
-def known_finding_runs(ctx):
-    """dedicated reproductions of the recorded findings (the generators steer around them)"""
+def regression_cases(ctx):
+    """one small case per repaired defect class (F29 BitSetDocSet sticky end, F30 Intersection count, F32 / F33 union
+    seek_danger, F31 union fill_buffer scores): they must be accepted like everything else"""
     t = lambda x: {"k": "term", "f": "title", "t": x, "opt": "freq"}
     cases = [
         # BitSetDocSet: seek past the end, then advance
@@ -399,18 +399,13 @@ def known_finding_runs(ctx):
     cp = ctx.path("kf_cases.ndjson")
     vlib.write_ndjson(cp, cases)
     tp = ctx.path("kf_trace.ndjson")
-    vlib.run_bin("docset_driver", ["cases", "--in", cp, "--out", tp, "--no-avoid"], timeout=300)
+    vlib.run_bin("docset_driver", ["cases", "--in", cp, "--out", tp], timeout=300)
     seen = []
-    before = ctx.cov["traces_validated_against_impl"]
-    validate(ctx, vlib.read_ndjson(tp), "kf", expect=seen)
-    ctx.cov["traces_validated_against_impl"] = before  # these runs are reproductions, not coverage
-    rep = {"bitset": any(KF_BITSET in s for s in seen), "unionfill": any(KF_UNIONFILL in s for s in seen),
-           "intersection_count": any(KF_INTERCOUNT in s for s in seen),
-           "union_seek_danger": any(KF_UNIONDANGER in s for s in seen), "union_stale_member": any(KF_UNIONMEMBER in s for s in seen)}
-    ctx.cov["recorded_findings_reproduced"] = rep
-    for k, v in rep.items():
-        if not v:
-            log(f"[kf] the recorded finding '{k}' did not reproduce on this tree")
+    n = validate(ctx, vlib.read_ndjson(tp), "regr", expect=seen)
+    ctx.cov["repaired_findings_regressed"] = {"F29": any(KF_BITSET in s for s in seen), "F31": any(KF_UNIONFILL in s for s in seen),
+                                              "F30": any(KF_INTERCOUNT in s for s in seen), "F32": any(KF_UNIONDANGER in s for s in seen),
+                                              "F33": any(KF_UNIONMEMBER in s for s in seen)}
+    log(f"[regr] {n} programs of the regression cases of F29-F33 accepted")
 
 
 def binding_selftest(ctx, events):
@@ -470,7 +465,8 @@ def run(ctx):
                         "the oracle sequence S is the plain-advance enumeration of a fresh scorer of the same weight (the property's own oracle); "
                         "in the R direction TLC also checks that S is exactly the stripes of the abstract set",
                         "scores of sums of more than two clauses are compared within 4n ulp (the order of summation is not fixed), all others bit for bit",
-                        "the harness is a release build without debug assertions: only wrong values and release-build panics are observations"]
+                        "the harness is a release build without debug assertions: only wrong values and release-build panics are observations",
+                        "seek_danger chains follow the documented contract literally (strictly increasing targets, also below a returned lower bound)"]
     model_checking(ctx)
     ev = replay_generated(ctx)
     if ctx.quick:
@@ -483,7 +479,7 @@ def run(ctx):
             random_programs(ctx, ctx.seed + 10 + i, 4000, 400, 8, 30, f"rand{i}")
         random_programs(ctx, ctx.seed + 1, 12000, 250, 8, 60, "rand_big", ["--bigseg"])
         random_programs(ctx, ctx.seed + 2, 12000, 250, 8, 60, "rand_big2", ["--bigseg", "--depth", "3"])
-    known_finding_runs(ctx)
+    regression_cases(ctx)
     binding_selftest(ctx, [e for e in ev2 if e.get("ev") == "scorer"] + [e for e in ev if e.get("ev") == "scorer"][:200])
     sc = next((e for e in ev2 if e.get("ev") == "scorer" and e["S"] and len(e["progs"][0]) > 3), None)
     if sc:
